@@ -243,6 +243,62 @@ func c03afterStop(c *vt.Ctx, log *peer.Log, msgs []c03msg, when string, final bo
 	}
 }
 
+// c03slowNamer is an assigner whose Names() takes as long as the harness wants (a
+// registry behind a lock, a remote lookup): rpc.serverInfo, which calls it, is then a
+// call that is still running - it must not delay the requests that arrive after it.
+type c03slowNamer struct {
+	*peer.Handlers
+	gate chan struct{}
+	log  *peer.Log
+}
+
+func (n c03slowNamer) Names() []string {
+	n.log.Add("names.enter", "", "")
+	<-n.gate
+	n.log.Add("names.exit", "", "")
+	return n.Handlers.Names()
+}
+
+func c03infoExec(c *vt.Ctx, conc int) {
+	ctrl := sched.New()
+	peer.Bubble(c, ctrl, func() {
+		gate := make(chan struct{})
+		log := peer.NewLog()
+		h := peer.NewHandlers(log)
+		rig := peer.NewServerRig(c, ctrl, peer.ServerOpts{Concurrency: conc, Assigner: c03slowNamer{h, gate, log}})
+		rig.H = h
+		what := fmt.Sprintf("rpc.serverInfo with a slow Names(), Concurrency %d", conc)
+		rig.Send(peer.Req("1", "rpc.serverInfo", ""))
+		peer.SettleOrStuck(ctrl)
+		if log.Count("names.enter", "*") != 1 {
+			c.Failf("%s: the built-in has not asked the assigner for its names", what)
+		}
+		// the built-in is running (inside Names); two more requests arrive
+		rig.Send(peer.Req("2", "i", "after1"))
+		rig.Send(peer.Req("", "i", "after2"))
+		stuck := peer.SettleOrStuck(ctrl)
+		if n := log.Count("h.exit", "after1") + log.Count("h.exit", "after2"); n != 2 {
+			msg := ""
+			if stuck != nil {
+				msg = fmt.Sprintf("; nothing can move: %d goroutine(s) wait for the server's mutex, first:\n%.1200s", len(stuck), stuck[0])
+			}
+			c.Failf("%s: %d of the 2 requests that arrived while the built-in call was still running have been served, want 2 (a running call never delays later requests)%s", what, n, msg)
+		}
+		close(gate)
+		rig.Settle()
+		if got := len(rig.Outbound()); got != 2 {
+			c.Failf("%s: %d replies, want 2", what, got)
+		}
+		if _, ok := rig.Finish(); !ok {
+			c.Failf("%s: server did not exit after the peer closed", what)
+		}
+		c.Count("events", log.Len())
+		c.Count("handler_runs", int(h.Invocations()))
+		c.Count("slow_namer_runs", 1)
+	})
+	c.Eval(1)
+}
+
 func c03exec(c *vt.Ctx, r c03run) {
 	msgs, _ := c03build(r.script)
 	effConc := r.conc
@@ -525,6 +581,14 @@ func c03cases(e vt.Env, yield func(vt.Case) bool) {
 	})
 	if !ok {
 		return
+	}
+	// I: the built-in rpc.serverInfo as the call that is still running
+	for _, conc := range []int{2, 8} {
+		conc := conc
+		id := fmt.Sprintf("I/slow-names/c%d", conc)
+		if !yield(vt.Case{ID: id, Run: func(c *vt.Ctx) { c03infoExec(c, conc); c.Distinct(id) }}) {
+			return
+		}
 	}
 	// E3: seeded perturbation on longer random scripts.
 	n := e.Pick(60, 600)
